@@ -9,6 +9,7 @@ pub mod c07;
 pub mod c12;
 pub mod c13;
 pub mod c14;
+pub mod c15;
 pub mod c18;
 pub mod common;
 pub mod gcsearch;
@@ -36,6 +37,7 @@ pub fn registry() -> Vec<PropertyDef> {
         PropertyDef { id: "C07", run: c07::run, replay: c07::replay, level: "fault_enumeration" },
         PropertyDef { id: "C12", run: c12::run, replay: c12::replay, level: "exploration" },
         PropertyDef { id: "C14", run: c14::run, replay: c14::replay, level: "exploration" },
+        PropertyDef { id: "C15", run: c15::run, replay: c15::replay, level: "exploration" },
         PropertyDef { id: "C18", run: c18::run, replay: c18::replay, level: "exploration" },
         PropertyDef { id: "C13", run: c13::run, replay: c13::replay, level: "fault_enumeration" },
     ]
@@ -59,6 +61,20 @@ pub fn replay_file(path: &Path) -> i32 {
         }
     };
     let id = doc["property"].as_str().unwrap_or("");
+    if doc.get("abort_probe").and_then(|b| b.as_bool()).unwrap_or(false) {
+        // the case once aborted the host process: just execute it; if this returns, it is clean
+        return match crate::case::Case::from_json(&doc["case"]) {
+            Ok(case) => {
+                let _ = common::run_case(&case, &common::RunOpts::default());
+                println!("REPLAY-CLEAN property={} replay={}", id, path.display());
+                0
+            }
+            Err(e) => {
+                println!("HARNESS-ERROR {}", e);
+                2
+            }
+        };
+    }
     let def = match find(id) {
         Some(d) => d,
         None => {
@@ -142,6 +158,25 @@ pub fn check(id: &str, tier: Tier, seed: u64) -> i32 {
         if let Some(canary) = &k.canary {
             let path = verif_dir().join(canary);
             match read_json(&path) {
+                Ok(doc) if doc.get("abort_probe").and_then(|b| b.as_bool()).unwrap_or(false) => {
+                    // a case that once aborted the host: execute it in a child process
+                    let exe = std::env::current_exe().expect("current_exe");
+                    match std::process::Command::new(exe).arg("replay").arg(&path).output() {
+                        Ok(o) if o.status.code() == Some(0) => ev.count("fixed_finding_canaries_clean", 1),
+                        Ok(o) => found.insert(
+                            0,
+                            Violation {
+                                property: id.to_string(),
+                                oracle: "the host process must not be aborted".into(),
+                                signature: "host process aborted".into(),
+                                run: 0,
+                                case: doc["case"].clone(),
+                                detail: format!("regression of repaired finding {}: replay exit status {:?}", k.id, o.status.code()),
+                            },
+                        ),
+                        Err(e) => verdict.harness_errors.push(format!("canary {}: {}", canary, e)),
+                    }
+                }
                 Ok(doc) => match (def.replay)(&doc["case"]) {
                     Ok(Some(mut v)) => {
                         v.detail = format!("regression of repaired finding {}\n{}", k.id, v.detail);
@@ -179,7 +214,8 @@ pub fn check(id: &str, tier: Tier, seed: u64) -> i32 {
                 let same = text
                     .lines()
                     .any(|l| l.strip_prefix("REPLAY-SIGNATURE ").map(|s| s == v.signature).unwrap_or(false));
-                if o.status.code() == Some(1) && same {
+                let aborted = v.signature == "host process aborted" && !matches!(o.status.code(), Some(0) | Some(1) | Some(2));
+                if (o.status.code() == Some(1) && same) || aborted {
                     verdict.violations.push((v, path));
                 } else {
                     verdict.harness_errors.push(format!(
